@@ -36,6 +36,7 @@ def build_world():
             w.ignore_calls_on.append(lg)
     from stubs import builtins_
     builtins_.install(w)
+    builtins_.install_queue(w)
     from stubs import shapes, cfdp
     shapes.install(w)
     cfdp.install(w)
